@@ -39,31 +39,33 @@ import (
 
 // Scenario is one workload on one shared span (+ optional gate script).
 type Scenario struct {
-	Name       string   `json:"name,omitempty"`
-	RT         bool     `json:"rt"`       // runtime/trace started before the span is started
-	NProcs     int      `json:"nprocs"`   // registered recording processors
-	Enders     int      `json:"enders"`   // goroutines calling End
-	EndsPer    int      `json:"endsPer"`  // sequential End calls per ender (default 1)
-	TS         bool     `json:"ts"`       // End(WithTimestamp(t_k)), k unique per call
-	Muts       []string `json:"muts"`     // one mutator goroutine per entry: kind of its first call
-	MutsPer    int      `json:"mutsPer"`  // calls per mutator (default 1); later calls use attrs/event/link/error
-	Children   int      `json:"children"` // goroutines starting (and ending) a child span
-	Readers    int      `json:"readers"`  // goroutines calling IsRecording
-	ReadsPer   int      `json:"readsPer"`
-	ETimers    int      `json:"etimers"`    // goroutines reading ReadWriteSpan.EndTime()
-	Provs      int      `json:"provs"`      // goroutines using the provider concurrently (Tracer, Register/Unregister, ForceFlush)
-	Regs       int      `json:"regs"`       // goroutines g<i> registering one more recording processor p<nprocs+i> each
-	Lim        int      `json:"lim"`        // >0: Event/Link/AttributeCountLimit = lim and lim events, links, attributes recorded beforehand (queues full)
-	Panickers  int      `json:"panickers"`  // the first k enders call End as a deferred call during a panic (recover branch of End)
-	RecordOnly bool     `json:"recordOnly"` // the sampler answers RecordOnly: recording, not sampled (Drop = non-recording: out of scope)
-	Stoppers   int      `json:"stoppers"`   // goroutines s<i> calling TracerProvider.Shutdown
-	Unregs     int      `json:"unregs"`     // goroutines u<i> calling UnregisterSpanProcessor(p1)
-	ReentReg   bool     `json:"reentReg"`   // p1's Shutdown calls RegisterSpanProcessor (re-entrant use from a callback)
-	WaitFor    int      `json:"waitFor"`    // the last k registrars are workers started by p1's Shutdown, which waits for them
-	Perturb    float64  `json:"perturb"`
-	Tight      bool     `json:"tight"` // no jitter: all goroutines spin on a barrier and make their first call together
-	Script     []string `json:"script,omitempty"`
-	Seed       int64    `json:"seed"`
+	Name         string   `json:"name,omitempty"`
+	RT           bool     `json:"rt"`       // runtime/trace started before the span is started
+	NProcs       int      `json:"nprocs"`   // registered recording processors
+	Enders       int      `json:"enders"`   // goroutines calling End
+	EndsPer      int      `json:"endsPer"`  // sequential End calls per ender (default 1)
+	TS           bool     `json:"ts"`       // End(WithTimestamp(t_k)), k unique per call
+	Muts         []string `json:"muts"`     // one mutator goroutine per entry: kind of its first call
+	MutsPer      int      `json:"mutsPer"`  // calls per mutator (default 1); later calls use attrs/event/link/error
+	Children     int      `json:"children"` // goroutines starting (and ending) a child span
+	Readers      int      `json:"readers"`  // goroutines calling IsRecording
+	ReadsPer     int      `json:"readsPer"`
+	ETimers      int      `json:"etimers"`      // goroutines reading ReadWriteSpan.EndTime()
+	Provs        int      `json:"provs"`        // goroutines using the provider concurrently (Tracer, Register/Unregister, ForceFlush)
+	Regs         int      `json:"regs"`         // goroutines g<i> registering one more recording processor p<nprocs+i> each
+	Zero         bool     `json:"zero"`         // Attribute/Event/LinkCountLimit = 0: a mutation is observable only through the dropped counters
+	EndInOnStart bool     `json:"endInOnStart"` // processor p1 ends the shared span inside OnStart (before Start returns)
+	Lim          int      `json:"lim"`          // >0: Event/Link/AttributeCountLimit = lim and lim events, links, attributes recorded beforehand (queues full)
+	Panickers    int      `json:"panickers"`    // the first k enders call End as a deferred call during a panic (recover branch of End)
+	RecordOnly   bool     `json:"recordOnly"`   // the sampler answers RecordOnly: recording, not sampled (Drop = non-recording: out of scope)
+	Stoppers     int      `json:"stoppers"`     // goroutines s<i> calling TracerProvider.Shutdown
+	Unregs       int      `json:"unregs"`       // goroutines u<i> calling UnregisterSpanProcessor(p1)
+	ReentReg     bool     `json:"reentReg"`     // p1's Shutdown calls RegisterSpanProcessor (re-entrant use from a callback)
+	WaitFor      int      `json:"waitFor"`      // the last k registrars are workers started by p1's Shutdown, which waits for them
+	Perturb      float64  `json:"perturb"`
+	Tight        bool     `json:"tight"` // no jitter: all goroutines spin on a barrier and make their first call together
+	Script       []string `json:"script,omitempty"`
+	Seed         int64    `json:"seed"`
 }
 
 var tsBase = time.Date(2030, 1, 1, 0, 0, 0, 0, time.UTC)
@@ -559,11 +561,20 @@ func (p *recProc) OnStart(_ context.Context, s sdktrace.ReadWriteSpan) {
 	if pi == nil || p.idx != 1 {
 		return
 	}
-	pi.st.mu.Lock()
-	if pi.st.rw[0] == nil { // the first span started in a scenario is the shared one
-		pi.st.rw[0] = s
+	st := pi.st
+	st.mu.Lock()
+	first := st.rw[0] == nil // the first span started in a scenario is the shared one
+	if first {
+		st.rw[0] = s
+		st.spans[s.SpanContext().SpanID()] = 1
 	}
-	pi.st.mu.Unlock()
+	st.mu.Unlock()
+	if first && st.sc.EndInOnStart { // a processor is allowed to end the span it is told about
+		st.emit(map[string]any{"ev": "Call", "op": "End", "proc": pi.name, "span": 1, "arg": 0})
+		s.End()
+		st.endRets.Add(1)
+		st.emit(map[string]any{"ev": "Ret", "op": "End", "proc": pi.name, "span": 1, "arg": 0, "val": false})
+	}
 }
 
 func (p *recProc) OnEnd(ro sdktrace.ReadOnlySpan) {
@@ -591,7 +602,8 @@ func (p *recProc) OnEnd(ro sdktrace.ReadOnlySpan) {
 	}
 	st.emit(map[string]any{"ev": "OnEnd", "p": p.idx, "span": span, "proc": pi.name, "et": et,
 		"full": pr.full, "partial": pr.partial, "child": child,
-		"evmiss": pr.evmiss, "evdrop": pr.evdrop, "lkmiss": pr.lkmiss, "lkdrop": pr.lkdrop})
+		"evmiss": pr.evmiss, "evdrop": pr.evdrop, "lkmiss": pr.lkmiss, "lkdrop": pr.lkdrop,
+		"datt": ro.DroppedAttributes(), "dev": ro.DroppedEvents(), "dlk": ro.DroppedLinks()})
 	st.mu.Lock()
 	st.keep = append(st.keep, kept{p.idx, span, ro, d0})
 	if span == 1 && p.idx <= len(st.handed) {
@@ -665,6 +677,12 @@ var hookPoints = map[string]bool{"span.end.ignored": true, "span.end.checked": t
 
 // ---------------------------------------------------------------- one scenario
 func runScenario(scn int, sc Scenario, tw *vh.TraceWriter, res *vh.Result, hooks bool) (stuck bool) {
+	if sc.Zero { // nothing is stored: no queues to fill, and End's own exception event would only blur the counters
+		sc.Lim, sc.Panickers = 0, 0
+	}
+	if sc.EndInOnStart { // the span is ended before anything can be recorded on it beforehand
+		sc.Lim = 0
+	}
 	setRT(sc.RT)
 	rng := rand.New(rand.NewSource(sc.Seed))
 	sched := vh.NewSched(sc.Script, sc.Seed+7)
@@ -675,11 +693,11 @@ func runScenario(scn int, sc Scenario, tw *vh.TraceWriter, res *vh.Result, hooks
 	st := &scState{scn: scn, tw: tw, sched: sched, scripted: sc.Script != nil, sc: sc, lim: sc.Lim, spans: map[trace.SpanID]int{}, ets: map[int][]time.Time{},
 		kinds: map[int]string{}, rw: map[int]sdktrace.ReadWriteSpan{}, handed: make([]int, sc.NProcs+sc.Regs), child: -1}
 	cur.Store(st)
-	st.emit(map[string]any{"ev": "Cfg", "rt": sc.RT, "nprocs": sc.NProcs, "hooks": hooks, "name": sc.Name, "lim": sc.Lim, "sampled": !sc.RecordOnly})
+	st.emit(map[string]any{"ev": "Cfg", "rt": sc.RT, "nprocs": sc.NProcs, "hooks": hooks, "name": sc.Name, "lim": sc.Lim, "sampled": !sc.RecordOnly, "zero": sc.Zero})
 
 	opts := []sdktrace.TracerProviderOption{sdktrace.WithSampler(decSampler{sc.RecordOnly})}
 	rps := []*recProc{}
-	if sc.Lim > 0 {
+	if sc.Lim > 0 || sc.Zero {
 		l := sdktrace.NewSpanLimits()
 		l.EventCountLimit, l.LinkCountLimit, l.AttributeCountLimit = sc.Lim, sc.Lim, sc.Lim
 		opts = append(opts, sdktrace.WithRawSpanLimits(l))
@@ -694,17 +712,27 @@ func runScenario(scn int, sc Scenario, tw *vh.TraceWriter, res *vh.Result, hooks
 	}
 	tracer := tp.Tracer("c10")
 
-	self := &procInfo{name: "main", st: st}
-	procs.Store(goid(), self)
-	defer procs.Delete(goid())
-	_, span := tracer.Start(context.Background(), "shared")
-	st.mu.Lock()
-	st.spans[span.SpanContext().SpanID()] = 1
-	st.mu.Unlock()
-	for k := 1; k <= sc.Lim; k++ { // the queues are at their limits before anybody starts
-		span.AddEvent(fmt.Sprintf("i%d", k))
-		span.AddLink(trace.Link{SpanContext: prefillLink(k)})
-		span.SetAttributes(attribute.Int(fmt.Sprintf("ia%d", k), k))
+	// Start (the processors' OnStart, runtimeTrace) and the calls that fill the queues run as a watched process
+	// too: a processor may end the span inside OnStart, and nothing of that may block
+	var span trace.Span
+	var swg sync.WaitGroup
+	swg.Add(1)
+	st.spawn("main", &swg, func(string) {
+		_, sp := tracer.Start(context.Background(), "shared")
+		st.mu.Lock()
+		st.spans[sp.SpanContext().SpanID()] = 1
+		st.mu.Unlock()
+		for k := 1; k <= sc.Lim; k++ { // the queues are at their limits before anybody starts
+			sp.AddEvent(fmt.Sprintf("i%d", k))
+			sp.AddLink(trace.Link{SpanContext: prefillLink(k)})
+			sp.SetAttributes(attribute.Int(fmt.Sprintf("ia%d", k), k))
+		}
+		span = sp
+	})
+	if st.watch(&swg, 5*time.Second, 2*time.Second, res) {
+		st.emit(map[string]any{"ev": "EndScenario", "quiescent": false, "name": sc.Name, "desync": 1,
+			"handed": []int{}, "nfull": 0, "child": -1})
+		return true
 	}
 
 	sdktrace.SetVerifHook(func(point string, args ...any) {
@@ -774,7 +802,15 @@ func runScenario(scn int, sc Scenario, tw *vh.TraceWriter, res *vh.Result, hooks
 	}
 	call := func(name, op string, span, arg int, f func() bool) {
 		st.arrive(name + "@call")
-		st.emit(map[string]any{"ev": "Call", "op": op, "proc": name, "span": span, "arg": arg})
+		ev := map[string]any{"ev": "Call", "op": op, "proc": name, "span": span, "arg": arg}
+		if op == "Mut" { // what the call adds to the dropped counters when every limit is 0
+			w := [3]int{}
+			if sc.Zero {
+				w = map[string][3]int{"attrs": {2, 0, 0}, "event": {0, 1, 0}, "link": {0, 0, 1}, "error": {0, 1, 0}, "uerror": {0, 1, 0}}[st.kinds[arg]]
+			}
+			ev["wa"], ev["we"], ev["wl"] = w[0], w[1], w[2]
+		}
+		st.emit(ev)
 		val := f()
 		if op == "End" && span == 1 {
 			st.endRets.Add(1)
@@ -1042,6 +1078,7 @@ func randomScenario(r *rand.Rand) Scenario {
 		Perturb: []float64{0, 0.3, 0.7}[r.Intn(3)], Seed: r.Int63(), Muts: []string{}, Tight: r.Intn(3) == 0,
 		Provs: r.Intn(3) / 2, Regs: r.Intn(4) / 2,
 		Lim: []int{0, 0, 1, 2, 3}[r.Intn(5)], Panickers: r.Intn(3) / 2, RecordOnly: r.Intn(3) == 0,
+		Zero: r.Intn(6) == 0, EndInOnStart: r.Intn(12) == 0,
 	}
 	for i, n := 0, r.Intn(4); i < n; i++ {
 		sc.Muts = append(sc.Muts, firsts[r.Intn(len(firsts))])
@@ -1330,7 +1367,7 @@ func bulk(n, enders int, tw *vh.TraceWriter, res *vh.Result) {
 	rng := rand.New(rand.NewSource(vh.Seed()))
 	phase := func(sc, n int, rtOn bool) {
 		setRT(rtOn)
-		tw.Emit(map[string]any{"ev": "Cfg", "sc": sc, "rt": rtOn, "nprocs": 2, "hooks": false, "name": "bulk", "lim": 0, "sampled": true})
+		tw.Emit(map[string]any{"ev": "Cfg", "sc": sc, "rt": rtOn, "nprocs": 2, "hooks": false, "name": "bulk", "lim": 0, "sampled": true, "zero": false})
 		var wg sync.WaitGroup
 		for i := 0; i < n; i++ {
 			tracer := tracers[i%2]
@@ -1383,6 +1420,81 @@ func bulk(n, enders int, tw *vh.TraceWriter, res *vh.Result) {
 	phase(1, n/8, false)
 	setRT(false)
 	bulkMut(2, n, tw, res, rng)
+	bulkZero(5, n/4, tw, res, rng)
+}
+
+// bulkZero: every limit is 0, so a mutation is observable only through the dropped counters. Hammer: 4
+// goroutines x 5 calls (SetAttributes with 2 attributes, AddEvent, AddLink, RecordError) on one span. Even
+// spans: all of them return, then End: the snapshot's counters must be EXACT (an unsynchronised counter loses
+// updates). Odd spans: End races with them: the counters can only be smaller. Then every mutator is called
+// once more on the ended span and the snapshot is read again.
+func bulkZero(sc, n int, tw *vh.TraceWriter, res *vh.Result, rng *rand.Rand) {
+	kp := &keepProc{}
+	l := sdktrace.NewSpanLimits()
+	l.EventCountLimit, l.LinkCountLimit, l.AttributeCountLimit = 0, 0, 0
+	tp := sdktrace.NewTracerProvider(sdktrace.WithSpanProcessor(kp), sdktrace.WithRawSpanLimits(l))
+	tracer := tp.Tracer("c10-bulkzero")
+	tw.Emit(map[string]any{"ev": "Cfg", "sc": sc, "rt": false, "nprocs": 1, "hooks": false, "name": "bulkzero", "lim": 0, "sampled": true, "zero": true})
+	var wg sync.WaitGroup
+	for i := 0; i < n; i++ {
+		_, s := tracer.Start(context.Background(), "b")
+		kp.n, kp.ro = 0, nil
+		var flag atomic.Int32
+		var want [3]atomic.Int64
+		race := i%2 == 1
+		for g := 0; g < 4; g++ {
+			wg.Add(1)
+			seed := rng.Int63()
+			go func() {
+				defer wg.Done()
+				r := rand.New(rand.NewSource(seed))
+				for flag.Load() == 0 {
+					runtime.Gosched()
+				}
+				for k := 0; k < 5; k++ {
+					switch r.Intn(4) {
+					case 0:
+						s.SetAttributes(attribute.Int("a", k), attribute.Int("b", k))
+						want[0].Add(2)
+					case 1:
+						s.AddEvent("e")
+						want[1].Add(1)
+					case 2:
+						s.AddLink(trace.Link{SpanContext: linkSC(k + 1)})
+						want[2].Add(1)
+					case 3:
+						s.RecordError(errors.New("x"))
+						want[1].Add(1)
+					}
+				}
+			}()
+		}
+		if race {
+			wg.Add(1)
+			go func() {
+				defer wg.Done()
+				for flag.Load() == 0 {
+					runtime.Gosched()
+				}
+				s.End()
+			}()
+		}
+		flag.Store(1)
+		wg.Wait()
+		s.End()
+		ev := map[string]any{"ev": "Bulk3", "sc": sc, "span": i, "exact": !race, "handed": kp.n, "same": true,
+			"want": []int64{want[0].Load(), want[1].Load(), want[2].Load()}, "got": []int{0, 0, 0}}
+		if kp.ro != nil {
+			ev["got"] = []int{kp.ro.DroppedAttributes(), kp.ro.DroppedEvents(), kp.ro.DroppedLinks()}
+			s.SetAttributes(attribute.Int("post", 1))
+			s.AddEvent("post")
+			s.AddLink(trace.Link{SpanContext: linkSC(9)})
+			s.RecordError(errors.New("post"))
+			ev["same"] = digest(kp.ro) == kp.d0
+		}
+		tw.Emit(ev)
+	}
+	res.Count("bulkzero_spans", int64(n))
 }
 
 // bulkMut: hook-free volume stress of "mutator overtaken by End". Every span has its event / link /
@@ -1397,7 +1509,7 @@ func bulkMut(sc0, n int, tw *vh.TraceWriter, res *vh.Result, rng *rand.Rand) {
 		l.EventCountLimit, l.LinkCountLimit, l.AttributeCountLimit = lim, lim, lim
 		tp := sdktrace.NewTracerProvider(sdktrace.WithSpanProcessor(kp), sdktrace.WithRawSpanLimits(l))
 		tracer := tp.Tracer("c10-bulkmut")
-		tw.Emit(map[string]any{"ev": "Cfg", "sc": sc0 + lim - 1, "rt": false, "nprocs": 1, "hooks": false, "name": "bulkmut", "lim": lim, "sampled": true})
+		tw.Emit(map[string]any{"ev": "Cfg", "sc": sc0 + lim - 1, "rt": false, "nprocs": 1, "hooks": false, "name": "bulkmut", "lim": lim, "sampled": true, "zero": false})
 		var wg sync.WaitGroup
 		for i := 0; i < 2*n/3; i++ {
 			_, s := tracer.Start(context.Background(), "b")
@@ -1533,6 +1645,31 @@ func (p *reProc) run(cb string, ctx context.Context, rw sdktrace.ReadWriteSpan, 
 				live.End()
 			}
 		}
+	case "self-end", "self-setname", "self-setattrs", "self-addevent", "self-recorderror", "self-setstatus":
+		// the span the callback was called for (OnEnd: the ReadWriteSpan kept from OnStart)
+		live := rw
+		if live == nil && ro != nil {
+			if v, ok := p.lives.Load(ro.SpanContext().SpanID()); ok {
+				live = v.(sdktrace.ReadWriteSpan)
+			}
+		}
+		if live == nil || live.Name() == "reent" {
+			return
+		}
+		switch p.act {
+		case "self-end":
+			live.End()
+		case "self-setname":
+			live.SetName("cb")
+		case "self-setattrs":
+			live.SetAttributes(attribute.Int("cb", 1))
+		case "self-addevent":
+			live.AddEvent("cb")
+		case "self-recorderror":
+			live.RecordError(errors.New("cb"))
+		case "self-setstatus":
+			live.SetStatus(codes.Error, "cb")
+		}
 	case "worker-register":
 		worker(func() { p.tp.RegisterSpanProcessor(&nopProc{}) })
 	case "worker-unregister":
@@ -1562,75 +1699,87 @@ func (p *reProc) Shutdown(ctx context.Context) error { p.run("Shutdown", ctx, ni
 
 func reentMatrix(tw *vh.TraceWriter, res *vh.Result, hooks bool) {
 	sdktrace.SetVerifHook(nil)
-	setRT(false)
 	cbs := []string{"OnStart", "OnEnd", "ForceFlush", "Shutdown"}
-	acts := []string{"tracer", "register", "unregister-self", "unregister-other", "forceflush", "shutdown", "span",
-		"worker-register", "worker-unregister", "worker-tracer"}
+	self := []string{"self-end", "self-setname", "self-setattrs", "self-addevent", "self-recorderror", "self-setstatus"}
+	acts := append([]string{"tracer", "register", "unregister-self", "unregister-other", "forceflush", "shutdown", "span",
+		"worker-register", "worker-unregister", "worker-tracer"}, self...)
 	scn := 0
 	deadly := map[string]bool{} // combinations seen to deadlock are not repeated with concurrent users
-	for _, conc := range []bool{false, true} {
-		for _, cb := range cbs {
-			for _, act := range acts {
-				for _, via := range []string{"Shutdown", "Unregister"} {
-					key := cb + "/" + act + "/" + via
-					if (cb != "Shutdown" && via == "Unregister") || deadly[key] {
-						continue
-					}
-					name := fmt.Sprintf("reent:%s:%s:via-%s:conc=%v", cb, act, via, conc)
-					sc := Scenario{Name: name}
-					st := &scState{scn: scn, tw: tw, sched: vh.NewSched(nil, 1), sc: sc, spans: map[trace.SpanID]int{},
-						ets: map[int][]time.Time{}, kinds: map[int]string{}, rw: map[int]sdktrace.ReadWriteSpan{}}
-					cur.Store(st)
-					st.emit(map[string]any{"ev": "Cfg", "rt": false, "nprocs": 0, "hooks": hooks, "name": name, "lim": 0, "sampled": true})
-					rp := &reProc{st: st, other: &nopProc{}, cb: cb, act: act}
-					tp := sdktrace.NewTracerProvider(sdktrace.WithSpanProcessor(rp), sdktrace.WithSpanProcessor(rp.other),
-						sdktrace.WithSampler(decSampler{scn%3 == 2}))
-					rp.tp = tp
-					var wg sync.WaitGroup
-					wg.Add(1)
-					st.spawn("d", &wg, func(string) {
-						ctx, s := tp.Tracer("reent-driver").Start(context.Background(), "driven")
-						_, c := tp.Tracer("reent-driver").Start(ctx, "driven-child")
-						c.End()
-						s.End()
-						_ = tp.ForceFlush(context.Background())
-						if via == "Shutdown" {
-							_ = tp.Shutdown(context.Background())
-						} else {
-							tp.UnregisterSpanProcessor(rp)
-							_ = tp.Shutdown(context.Background())
+	for _, rtOn := range []bool{false, true} {
+		setRT(rtOn) // with the execution tracer on, Start ends with runtimeTrace and End with the task end
+		for _, conc := range []bool{false, true} {
+			for _, cb := range cbs {
+				for _, act := range acts {
+					for _, via := range []string{"Shutdown", "Unregister"} {
+						key := cb + "/" + act + "/" + via
+						spanCell := (cb == "OnStart" || cb == "OnEnd") && (strings.HasPrefix(act, "self-") || act == "span" || act == "tracer")
+						if (cb != "Shutdown" && via == "Unregister") || deadly[key] || (rtOn && !spanCell) ||
+							(strings.HasPrefix(act, "self-") && cb != "OnStart" && cb != "OnEnd") {
+							continue
 						}
-						rp.spawnWG.Wait()
-					})
-					if conc {
-						for i := 0; i < 2; i++ {
-							wg.Add(1)
-							st.spawn(fmt.Sprintf("c%d", i), &wg, func(string) {
-								for k := 0; k < 20; k++ {
-									_, s := tp.Tracer(fmt.Sprintf("t%d", k%3)).Start(context.Background(), "reent")
-									s.End()
-									if k%5 == 0 {
-										_ = tp.ForceFlush(context.Background())
+						name := fmt.Sprintf("reent:%s:%s:via-%s:conc=%v:rt=%v", cb, act, via, conc, rtOn)
+						sc := Scenario{Name: name}
+						st := &scState{scn: scn, tw: tw, sched: vh.NewSched(nil, 1), sc: sc, spans: map[trace.SpanID]int{},
+							ets: map[int][]time.Time{}, kinds: map[int]string{}, rw: map[int]sdktrace.ReadWriteSpan{}}
+						cur.Store(st)
+						st.emit(map[string]any{"ev": "Cfg", "rt": rtOn, "nprocs": 0, "hooks": hooks, "name": name, "lim": 0, "sampled": true, "zero": false})
+						st.scripted = false
+						rp := &reProc{st: st, other: &nopProc{}, cb: cb, act: act}
+						tp := sdktrace.NewTracerProvider(sdktrace.WithSpanProcessor(rp), sdktrace.WithSpanProcessor(rp.other),
+							sdktrace.WithSampler(decSampler{scn%3 == 2}))
+						rp.tp = tp
+						var wg sync.WaitGroup
+						wg.Add(1)
+						st.spawn("d", &wg, func(string) {
+							ctx, s := tp.Tracer("reent-driver").Start(context.Background(), "driven")
+							s.SetName("driven") // the user's own calls on the span must return whatever the callbacks did
+							_ = s.IsRecording()
+							_, c := tp.Tracer("reent-driver").Start(ctx, "driven-child")
+							c.End()
+							s.End()
+							s.End()
+							_ = s.IsRecording()
+							s.SetName("driven")
+							_ = tp.ForceFlush(context.Background())
+							if via == "Shutdown" {
+								_ = tp.Shutdown(context.Background())
+							} else {
+								tp.UnregisterSpanProcessor(rp)
+								_ = tp.Shutdown(context.Background())
+							}
+							rp.spawnWG.Wait()
+						})
+						if conc {
+							for i := 0; i < 2; i++ {
+								wg.Add(1)
+								st.spawn(fmt.Sprintf("c%d", i), &wg, func(string) {
+									for k := 0; k < 20; k++ {
+										_, s := tp.Tracer(fmt.Sprintf("t%d", k%3)).Start(context.Background(), "reent")
+										s.End()
+										if k%5 == 0 {
+											_ = tp.ForceFlush(context.Background())
+										}
 									}
-								}
-							})
+								})
+							}
 						}
+						if st.watch(&wg, 500*time.Millisecond, time.Second, res) {
+							deadly[key] = true
+						}
+						if rp.done.Load() == 0 && !deadly[key] {
+							res.Count("reent_action_never_ran", 1)
+						}
+						st.emit(map[string]any{"ev": "EndScenario", "quiescent": !deadly[key], "name": name, "desync": 0,
+							"handed": []int{}, "nfull": 0, "child": -1})
+						res.Executed++
+						res.Count("reent_scenarios", 1)
+						scn++
 					}
-					if st.watch(&wg, time.Second, 2*time.Second, res) {
-						deadly[key] = true
-					}
-					if rp.done.Load() == 0 && !deadly[key] {
-						res.Count("reent_action_never_ran", 1)
-					}
-					st.emit(map[string]any{"ev": "EndScenario", "quiescent": !deadly[key], "name": name, "desync": 0,
-						"handed": []int{}, "nfull": 0, "child": -1})
-					res.Executed++
-					res.Count("reent_scenarios", 1)
-					scn++
 				}
 			}
 		}
 	}
+	setRT(false)
 }
 
 func main() {
@@ -1660,7 +1809,7 @@ func main() {
 		reentMatrix(tw, res, *hooks)
 	case "bulk":
 		bulk(*n, *enders, tw, res)
-		res.Executed = int64(*n + *n/8 + 2**n/3*3)
+		res.Executed = int64(*n + *n/8 + 2**n/3*3 + *n/4)
 	case "random":
 		r := rand.New(rand.NewSource(vh.Seed()))
 		for i := 0; i < *n; i++ {
